@@ -32,21 +32,23 @@ func init() {
 	core.Register(&core.Check{
 		ID:    prop,
 		Level: "exploration",
-		Rule: "a chart is a file set: baseline (Chart.yaml v2, values.yaml, one template) plus every conflict-free subset of <=2 (quick) / <=3 (thorough) deviations from a table of " +
+		Rule: "a chart is a file set: baseline (Chart.yaml v2, values.yaml, one template) plus every conflict-free subset of <=2 (quick) / <=3 (thorough; a two-rule .helmignore counts as two there) deviations from a table of " +
 			fmt.Sprint(len(devTable)) + " (apiVersion v1 +requirements.yaml/.lock, all optional metadata, declared dependencies, Chart.lock, schema, 5 file-name shapes, 5 contents x {file,template,values} + 3 x Chart.yaml, " +
-			"4 dependency layouts, " + fmt.Sprint(ruleSetCount()) + " .helmignore rule sets with " + fmt.Sprint(len(probeNames)) + " probe files); each runs LoadFiles->Save->LoadFile, LoadFiles->SaveDir->LoadDir, dir->LoadDir vs dir->Package->LoadFile, dir->LoadDir vs own-tar->LoadArchive; " +
-			"plus invalid name/version x <=1 deviation (one .helmignore set only) x {Save, Package, Package --version}. distinct = (resulting file set) / (invalid tuple); every case is non-trivial: it reaches the tar writer or a validation error",
+			"4 dependency layouts, " + fmt.Sprint(ruleSetCount()) + " .helmignore rule sets with " + fmt.Sprint(len(probeNames)) + " probe files); each runs LoadFiles->Save->LoadFile, LoadFiles->SaveDir->LoadDir (not for a .helmignore set combined with other deviations), dir->LoadDir vs dir->Package->LoadFile, dir->LoadDir vs own-tar->LoadArchive; " +
+			"plus invalid name/version x <=1 deviation (one .helmignore set only) x {Save, Package, Package --version}; plus write-phase faults (invalid chart name 1 or 2 levels down the dependency tree, values.schema.json that is not JSON at depth 0..2) x <=1 deviation x {Save, Package}: error => no file in the destination. distinct = (resulting file set) / (invalid tuple) / (fault tuple); every case is non-trivial: it reaches the tar writer or a validation error",
 		Run:    run,
 		Replay: replay,
 		Assumptions: []string{
 			"Linux file system semantics (byte file names, '/' separator); /var/tmp scratch directory per worker process",
 			"'the same chart' is judged on what the statement lists: metadata fields, raw values.yaml bytes, parsed values, schema bytes, lock (time with Equal), templates and files by name byte for byte, dependency tree by chart name; order of files/dependencies and Chart.Raw other than values.yaml are not compared (Chart.yaml is re-serialised by design)",
 			"nil, empty list, empty map and empty string are the same value of an optional metadata field",
-			".helmignore rule alphabet: literals, '*', '?', leading '/', trailing '/' (also both on one rule, and leading '/' with a glob), comment, blank line - at most two rules per file; negation, character classes, escapes and '**' are not generated; the loader's built-in rule templates/.?* is part of the reference matcher",
+			".helmignore rule alphabet: literals, '*', '?', leading '/', trailing '/' (also both on one rule, and leading '/' with a glob), backslash-escaped literals (plain, anchored, below a directory, escaped leading '#'), comment, blank line - at most two rules per file; negation, character classes, a file name containing a backslash and '**' are not generated; the loader's built-in rule templates/.?* is part of the reference matcher",
+			"a Save/Package that returns an error must leave no file below its destination, whatever made it fail after the archive file was created (generated: a nested chart with an invalid name, attached in memory because the loader refuses it; a schema file that is not JSON)",
 			"invalid names are ../x, a/b and the empty string, invalid versions 1.x and the empty string, as the property lists them; the names '.' and '..' are counted as invalid too (they relocate the archive entries like ../x does) and are reported under keys of their own",
 		},
 		RequiredFloors: []string{"roundtrip-equal:save", "roundtrip-equal:savedir", "roundtrip-equal:package", "dir-vs-archive-equal", "ignored-file-kept-out-of-archive",
-			"ignored-by-directory-rule", "rule-matched-nothing-extra", "input-rejected", "dep-tree-depth-2", "apiversion-v1", "lock-compared", "schema-compared", "bom-seen", "invalid-rejected:save", "invalid-rejected:package"},
+			"ignored-by-directory-rule", "rule-matched-nothing-extra", "input-rejected", "dep-tree-depth-2", "apiversion-v1", "lock-compared", "schema-compared", "bom-seen", "invalid-rejected:save", "invalid-rejected:package",
+			"failed-write-left-nothing:save:nested-name", "failed-write-left-nothing:save:schema", "failed-write-left-nothing:package:nested-name", "failed-write-left-nothing:package:schema"},
 	})
 }
 
@@ -214,7 +216,13 @@ func evalCase(ids []string) (res caseResult) {
 			res.floor("dep-tree-depth-2")
 		}
 		routeSave(c0, fs, b, dir, &res)
-		routeSaveDir(fs, b, dir, &res)
+		// SaveDir -> LoadDir is run for every chart without a .helmignore and for
+		// every .helmignore set on the baseline; a rule set combined with further
+		// deviations adds nothing there (ignored files are exempt on that route,
+		// the rest is the other deviation's own case) and is left out for cost.
+		if !(b.hasIgnore && len(ids) > 1) {
+			routeSaveDir(fs, b, dir, &res)
+		}
 	}
 
 	// ----- (c) and (d): the file set as a directory
@@ -450,12 +458,13 @@ func fileData(fs []file, name string) []byte {
 // ---------- reporting with minimisation ----------
 
 type replayData struct {
-	Mode     string   `json:"mode"` // rt | invalid
+	Mode     string   `json:"mode"` // rt | invalid | fault
 	Devs     []string `json:"devs"`
 	Name     string   `json:"name,omitempty"`
 	Version  string   `json:"version,omitempty"`
 	Override string   `json:"override,omitempty"`
 	Entry    string   `json:"entry,omitempty"`
+	Fault    *fault   `json:"fault,omitempty"`
 }
 
 type found struct {
@@ -602,6 +611,8 @@ func replay(c *core.Ctx, data json.RawMessage) []core.Violation {
 	var fs []found
 	if rd.Mode == "invalid" {
 		fs = evalInvalid(rd)
+	} else if rd.Mode == "fault" {
+		fs, _ = evalFault(rd)
 	} else {
 		fs = report(rd.Devs, evalCase(rd.Devs).Issues)
 	}
@@ -718,7 +729,7 @@ func run(c *core.Ctx) {
 	if c.Thorough() {
 		k = 3
 	}
-	c.Bound("max_deviations", fmt.Sprint(k))
+	c.Bound("max_deviations", map[int]string{2: "2", 3: "3 (a two-rule .helmignore counts as two)"}[k])
 	c.Bound("deviation_table", fmt.Sprint(len(devTable)))
 	c.Bound("helmignore_rule_sets", fmt.Sprintf("%d (all non-empty subsets of size <=2 of %d rules) + none", ruleSetCount(), len(ruleAlphabet)))
 	samples := 0
@@ -732,6 +743,9 @@ func run(c *core.Ctx) {
 			b, ok := buildCase(ids)
 			if !ok {
 				return // two deviations set the same file: not a member of the space
+			}
+			if len(ids) == 3 && len(b.ignore) == 2 {
+				return // thorough: a two-rule .helmignore counts as two of the three deviations
 			}
 			if !c.NextMine() {
 				return
@@ -759,6 +773,10 @@ func run(c *core.Ctx) {
 				c.Violate(prop, f.Key, f.What, f.Replay)
 			}
 		})
+	}
+
+	if c.Only == "" || c.Only == "fault" {
+		runFaults(c)
 	}
 
 	if c.Only == "" || c.Only == "invalid" {
